@@ -38,7 +38,7 @@ BOUND = ('round trip: names {n, session_id, all RFC 6265 token punctuation, N} x
          'and signed values (18: text, falsy values, bytes, nested containers, sets, stdlib objects) x secrets (6: ASCII, '
          'one letter, non-ASCII, separators, bytes) x attribute sets (4) x {through the application, response/request '
          'objects directly}; all singles, all ordered pairs of unsigned values and seeded random triples in one header. '
-         'Forgery: for 3 (quick) / 12 (thorough) signed cookies, EVERY position of the signed value x {substitution by '
+         'Forgery: for 3 (quick) / 42 (thorough) signed cookies, EVERY position of the signed value x {substitution by '
          '7 (quick) / 10 letters incl. non-base64 and non-ASCII, bit flip, case flip, deletion, insertion of 3 letters, '
          'truncation}, every signature prefix, signature extensions, signature/payload swap with a second cookie, 6 '
          'other secrets, 9 attacker-built values (marker payload with original/empty/unkeyed/wrong-key signatures, every '
@@ -170,7 +170,7 @@ def gen_cases(tier, seed):
     targets = [('n', "lit:'text'", 's3cret'), ('session_id', "lit:[1, [2, (3, None)], {'k': {'n': [b'x', 'y']}}]", 'ключ€'),
                ('N', 'lit:0', b'\x00\xffkey')]
     if thorough:
-        targets += [(n, v, s) for n, v, s in zip(itertools.cycle(NAMES), SIGNED[1:10], itertools.cycle(list(OTHER_SECRETS)))]
+        targets = [(n, v, s) for i, v in enumerate(SIGNED[:14]) for s in OTHER_SECRETS for n in (NAMES[i % 4],)]
     for name, vspec, secret in targets:
         length = len(cookie_spec.spec_signed_value(name, make_val(vspec), secret))
         for t in _tampers(tier, length, OTHER_SECRETS[secret]):
